@@ -41,6 +41,22 @@
 #include <AIToolbox/MDP/ThompsonModel.hpp>
 #include <AIToolbox/MDP/Experience.hpp>
 #include <AIToolbox/Seeder.hpp>
+#include <AIToolbox/MDP/SparseModel.hpp>
+#include <AIToolbox/POMDP/SparseModel.hpp>
+#include <AIToolbox/MDP/MaximumLikelihoodModel.hpp>
+#include <AIToolbox/MDP/Algorithms/DoubleQLearning.hpp>
+#include <AIToolbox/MDP/Algorithms/DynaQ.hpp>
+#include <AIToolbox/MDP/Policies/RandomPolicy.hpp>
+#include <AIToolbox/MDP/Policies/Policy.hpp>
+#include <AIToolbox/POMDP/Algorithms/rPOMCP.hpp>
+#include <AIToolbox/POMDP/Algorithms/Utils/BeliefGenerator.hpp>
+#include <AIToolbox/POMDP/Algorithms/Utils/Projecter.hpp>
+#include <AIToolbox/Utils/Prune.hpp>
+#include <AIToolbox/Utils/Polytope.hpp>
+#include <AIToolbox/Bandit/Model.hpp>
+#include <AIToolbox/Factored/Bandit/Environments/MiningProblem.hpp>
+#include <memory>
+#include <type_traits>
 
 using namespace verif;
 namespace A = AIToolbox;
@@ -58,6 +74,11 @@ static void flat(Out & o, const A::POMDP::ValueFunction & vf) { o.push_back((dou
 static MdpTables mdpOf(uint64_t ps, int shrink = 0) { Rng r(ps); size_t S = 2 + r.below(4) + shrink, Ac = 1 + r.below(3) + shrink; return randomMdp(r, S, Ac); }
 static PomdpTables pomdpOf(uint64_t ps, int shrink = 0) { Rng r(ps); size_t S = 2 + r.below(2) + shrink, Ac = 1 + r.below(2) + shrink, O = 1 + r.below(2) + shrink; return randomPomdp(r, S, Ac, O); }
 
+// same sizes as mdpOf(ps) / pomdpOf(ps), other content: what a solver object has seen before must not matter even when every
+// buffer it keeps already has the right shape
+static MdpTables mdpLike(uint64_t ps) { Rng r(ps); size_t S = 2 + r.below(4), Ac = 1 + r.below(3); Rng r2(ps ^ 0x777777); return randomMdp(r2, S, Ac); }
+static PomdpTables pomdpLike(uint64_t ps) { Rng r(ps); size_t S = 2 + r.below(2), Ac = 1 + r.below(2), O = 1 + r.below(2); Rng r2(ps ^ 0x777777); return randomPomdp(r2, S, Ac, O); }
+
 struct Subject { const char * name; bool deterministic; std::function<Out(uint64_t, int)> run; };
 
 static std::vector<Subject> subjects() {
@@ -65,7 +86,7 @@ static std::vector<Subject> subjects() {
     v.push_back({"ValueIteration", true, [](uint64_t ps, int mode) {
         A::MDP::ValueIteration vi(6, 0.0);
         if (mode == 1) { auto m0 = toDense(mdpOf(ps ^ 0xABCDEF, 1)); vi(m0); }
-        auto m = toDense(mdpOf(ps)); if (mode == 2) vi(m); auto [var, vf, q] = vi(m);
+        auto m = toDense(mdpOf(ps)); if (mode == 2) vi(m); if (mode == 3) { auto m3 = toDense(mdpLike(ps)); vi(m3); } auto [var, vf, q] = vi(m);
         Out o; o.push_back(var); flat(o, vf.values); for (auto a : vf.actions) o.push_back((double)a); flat(o, q); return o; }});
     v.push_back({"ValueIteration(warm_start)", true, [](uint64_t ps, int mode) {
         // a configured start value function of the right size: every call on this object must start from it
@@ -75,6 +96,7 @@ static std::vector<Subject> subjects() {
         A::MDP::ValueIteration vi(5, (ps & 2) ? 0.0 : 0.01, start);
         if (mode == 1) { auto m0 = toDense(mdpOf(ps ^ 0xABCDEF, 1)); vi(m0); }
         if (mode == 2) { vi(m); }
+        if (mode == 3) { auto m3 = toDense(mdpLike(ps)); vi(m3); }
         auto [var, vf, q] = vi(m);
         Out o; o.push_back(var); flat(o, vf.values); for (auto a : vf.actions) o.push_back((double)a); flat(o, q);
         // the configured parameter is part of the object's observable state
@@ -83,31 +105,31 @@ static std::vector<Subject> subjects() {
     v.push_back({"PolicyIteration", true, [](uint64_t ps, int mode) {
         A::MDP::PolicyIteration pi(50, 1e-6);
         if (mode == 1) { auto m0 = toDense(mdpOf(ps ^ 0xABCDEF, 1)); pi(m0); }
-        auto m = toDense(mdpOf(ps)); if (mode == 2) pi(m); auto q = pi(m); Out o; flat(o, q); return o; }});
+        auto m = toDense(mdpOf(ps)); if (mode == 2) pi(m); if (mode == 3) { auto m3 = toDense(mdpLike(ps)); pi(m3); } auto q = pi(m); Out o; flat(o, q); return o; }});
     v.push_back({"IncrementalPruning", true, [](uint64_t ps, int mode) {
         A::POMDP::IncrementalPruning s(2, 0.0);
         if (mode == 1) { auto m0 = toDense(pomdpOf(ps ^ 0xABCDEF, 1)); s(m0); }
-        auto m = toDense(pomdpOf(ps)); if (mode == 2) s(m); auto [var, vf] = s(m); Out o; o.push_back(var); flat(o, vf); return o; }});
+        auto m = toDense(pomdpOf(ps)); if (mode == 2) s(m); if (mode == 3) { auto m3 = toDense(pomdpLike(ps)); s(m3); } auto [var, vf] = s(m); Out o; o.push_back(var); flat(o, vf); return o; }});
     v.push_back({"Witness", true, [](uint64_t ps, int mode) {
         A::POMDP::Witness s(2, 0.0);
         if (mode == 1) { auto m0 = toDense(pomdpOf(ps ^ 0xABCDEF, 1)); s(m0); }
-        auto m = toDense(pomdpOf(ps)); if (mode == 2) s(m); auto [var, vf] = s(m); Out o; o.push_back(var); flat(o, vf); return o; }});
+        auto m = toDense(pomdpOf(ps)); if (mode == 2) s(m); if (mode == 3) { auto m3 = toDense(pomdpLike(ps)); s(m3); } auto [var, vf] = s(m); Out o; o.push_back(var); flat(o, vf); return o; }});
     v.push_back({"LinearSupport", true, [](uint64_t ps, int mode) {
         A::POMDP::LinearSupport s(2, 0.0);
         if (mode == 1) { auto m0 = toDense(pomdpOf(ps ^ 0xABCDEF, 1)); s(m0); }
-        auto m = toDense(pomdpOf(ps)); if (mode == 2) s(m); auto [var, vf] = s(m); Out o; o.push_back(var); flat(o, vf); return o; }});
+        auto m = toDense(pomdpOf(ps)); if (mode == 2) s(m); if (mode == 3) { auto m3 = toDense(pomdpLike(ps)); s(m3); } auto [var, vf] = s(m); Out o; o.push_back(var); flat(o, vf); return o; }});
     v.push_back({"FastInformedBound", true, [](uint64_t ps, int mode) {
         A::POMDP::FastInformedBound s(20, 1e-6);
         if (mode == 1) { auto m0 = toDense(pomdpOf(ps ^ 0xABCDEF, 1)); s(m0); }
-        auto m = toDense(pomdpOf(ps)); if (mode == 2) s(m); auto [var, q] = s(m); Out o; o.push_back(var); flat(o, q); return o; }});
+        auto m = toDense(pomdpOf(ps)); if (mode == 2) s(m); if (mode == 3) { auto m3 = toDense(pomdpLike(ps)); s(m3); } auto [var, q] = s(m); Out o; o.push_back(var); flat(o, q); return o; }});
     v.push_back({"QMDP", true, [](uint64_t ps, int mode) {
         A::POMDP::QMDP s(20, 1e-6);
         if (mode == 1) { auto m0 = toDense(pomdpOf(ps ^ 0xABCDEF, 1)); s(m0); }
-        auto m = toDense(pomdpOf(ps)); if (mode == 2) s(m); auto [var, vf, q] = s(m); Out o; o.push_back(var); flat(o, vf); flat(o, q); return o; }});
+        auto m = toDense(pomdpOf(ps)); if (mode == 2) s(m); if (mode == 3) { auto m3 = toDense(pomdpLike(ps)); s(m3); } auto [var, vf, q] = s(m); Out o; o.push_back(var); flat(o, vf); flat(o, q); return o; }});
     v.push_back({"BlindStrategies", true, [](uint64_t ps, int mode) {
         A::POMDP::BlindStrategies s(20, 1e-6);
         if (mode == 1) { auto m0 = toDense(pomdpOf(ps ^ 0xABCDEF, 1)); s(m0, true); }
-        auto m = toDense(pomdpOf(ps)); if (mode == 2) s(m, (ps & 1) != 0); auto [var, vl] = s(m, (ps & 1) != 0); Out o; o.push_back(var); flat(o, vl); return o; }});
+        auto m = toDense(pomdpOf(ps)); if (mode == 2) s(m, (ps & 1) != 0); if (mode == 3) { auto m3 = toDense(pomdpLike(ps)); s(m3, (ps & 1) == 0); } auto [var, vl] = s(m, (ps & 1) != 0); Out o; o.push_back(var); flat(o, vl); return o; }});
     v.push_back({"PBVI", false, [](uint64_t ps, int) {
         A::POMDP::PBVI s(6, 2, 0.0);
         auto m = toDense(pomdpOf(ps)); auto [var, vf] = s(m); Out o; o.push_back(var); flat(o, vf); return o; }});
@@ -204,15 +226,19 @@ static std::vector<Subject> subjects() {
         auto run = [&](uint64_t seed, int extra) { auto p = pomdpOf(seed, extra); auto m = toDense(p); A::Vector b = A::Vector::Constant(p.S, 1.0 / p.S); return s(m, b); };
         if (mode == 1) run(ps ^ 0xABCDEF, 1);
         if (mode == 2) run(ps, 0);
+        if (mode == 3) { auto p3 = pomdpLike(ps); auto m3 = toDense(p3); A::Vector b3 = A::Vector::Constant(p3.S, 1.0 / p3.S); s(m3, b3); }
         auto [lb, ub, vl, q] = run(ps, 0);
         A::Verif::anytimeObserver = nullptr;
         Out o; o.push_back(lb); o.push_back(ub); flat(o, vl); flat(o, q); return o; }});
     v.push_back({"GapMin(budget)", true, [](uint64_t ps, int mode) {
         A::POMDP::GapMin s(0.01, 3);
         A::Verif::anytimeObserver = [](const A::Verif::AnytimeSnapshot & sn) { return sn.iteration < 3; };
-        auto run = [&](uint64_t seed, int extra) { auto p = pomdpOf(seed, extra); auto m = toDense(p); A::Vector b = A::Vector::Constant(p.S, 1.0 / p.S); return s(m, b); };
-        if (mode == 1) run(ps ^ 0xABCDEF, 1);
+        // smallest size class only (S = 2, A, O in 1..2): on larger random POMDPs a single GapMin iteration can take minutes under ASan
+        // (thorough seed 1 cases 1758, 2038 were killed after 120 s)
+        auto run = [&](uint64_t seed, int extra) { (void)extra; Rng rr(seed); auto p = randomPomdp(rr, 2, 1 + rr.below(2), 1 + rr.below(2)); auto m = toDense(p); A::Vector b = A::Vector::Constant(p.S, 1.0 / p.S); return s(m, b); };
+        if (mode == 1) run(ps ^ 0xABCDEF, 0);   // another problem of the small size class (usually other sizes): one size up, single GapMin iterations can take minutes under ASan
         if (mode == 2) run(ps, 0);
+        // mode 3 (same-size other problem) is not run for GapMin: under ASan some random POMDPs take minutes per iteration (see C03)
         auto [lb, ub, vl, q] = run(ps, 0);
         A::Verif::anytimeObserver = nullptr;
         Out o; o.push_back(lb); o.push_back(ub); flat(o, vl); flat(o, q); return o; }});
@@ -248,23 +274,232 @@ static std::vector<Subject> subjects() {
             ql.stepUpdateQ(s, a, s1, rew); sl.stepUpdateQ(s, a, s1, a1, rew); psw.stepUpdateQ(s, a); psw.batchUpdateQ(); s = s1; a = a1; } };
         (void)mode; feed(ps ^ 17, 40);
         Out o; flat(o, ql.getQFunction()); flat(o, sl.getQFunction()); flat(o, psw.getQFunction()); return o; }});
+    // --- round 4: more solver objects of the inventory
+    v.push_back({"PolicyEvaluation", true, [](uint64_t ps, int mode) {
+        auto t = mdpOf(ps); auto m = toDense(t);
+        auto qOf = [](uint64_t seed, size_t S, size_t Ac) { Rng r(seed); A::MDP::QFunction q(S, Ac); for (size_t s = 0; s < S; ++s) for (size_t a = 0; a < Ac; ++a) q(s, a) = dyadicReward(r); return q; };
+        auto q0 = qOf(ps ^ 3, t.S, t.A); A::MDP::QGreedyPolicy pol(q0);
+        A::MDP::Values start;   // half of the cases: a configured start of the right size
+        if (ps & 4) { start = A::MDP::Values(t.S); Rng r(ps ^ 41); for (size_t s = 0; s < t.S; ++s) start[s] = dyadicReward(r); }
+        A::MDP::PolicyEvaluation<decltype(m)> pe(m, 5, (ps & 2) ? 0.0 : 0.01, start);
+        if (mode == 2) pe(pol);
+        if (mode == 1 || mode == 3) { auto q3 = qOf(ps ^ 0x777, t.S, t.A); A::MDP::QGreedyPolicy pol3(q3); pe(pol3); }   // other policy, same model (the model is bound at construction)
+        auto [var, vals, q] = pe(pol);
+        Out o; o.push_back(var); flat(o, vals); flat(o, q); const auto & kept = pe.getValues(); o.push_back((double)kept.size()); flat(o, kept); return o; }});
+    // Pruner owns a persistent lp_solve problem (WitnessLP lp_): every call starts with lp_.reset()
+    auto vlistOf = [](uint64_t seed, size_t S, int scale) {
+        Rng r(seed); size_t n = 3 + r.below(6); A::POMDP::VList l;
+        for (size_t i = 0; i < n; ++i) { A::MDP::Values v(S); for (size_t s = 0; s < S; ++s) v[s] = dyadicReward(r, (scale && r.coin(1, 3)) ? scale : 0); l.emplace_back(std::move(v), r.below(3), A::POMDP::VObs(0)); }
+        return l; };
+    auto prunerSubject = [vlistOf](int scale) { return [vlistOf, scale](uint64_t ps, int mode) {
+        Rng r(ps ^ 9); size_t S = 2 + r.below(3);
+        A::Pruner pr(S);
+        auto use = [&](A::POMDP::VList l) { auto e = pr(std::begin(l), std::end(l), A::POMDP::unwrap); l.erase(e, std::end(l)); return l; };
+        if (mode == 1 || mode == 3) use(vlistOf(ps ^ 0xABCDEF, S, 0));
+        if (mode == 2) use(vlistOf(ps, S, scale));
+        if (mode == 4) { auto big = vlistOf(ps ^ 0xABCDEF, S, 0); for (auto & e : big) e.values *= 1073741824.0; use(big); }   // everything at 2^30: WitnessLP picks a row scale
+        auto kept = use(vlistOf(ps, S, scale));
+        Out o; flat(o, kept); return o; }; };
+    v.push_back({"Pruner", true, prunerSubject(0)});
+    v.push_back({"Pruner(mixed_magnitudes)", true, prunerSubject(24)});
+    v.push_back({"Projecter", true, [vlistOf](uint64_t ps, int mode) {
+        auto p = pomdpOf(ps); auto m = toDense(p);
+        A::POMDP::Projecter<decltype(m)> proj(m);
+        auto l = vlistOf(ps ^ 21, p.S, 0);
+        if (mode == 1 || mode == 3) proj(vlistOf(ps ^ 22, p.S, 0));
+        if (mode == 2) proj(l);
+        auto table = proj(l);
+        Out o; for (size_t a = 0; a < p.A; ++a) for (size_t ob = 0; ob < p.O; ++ob) flat(o, table[a][ob]);
+        auto row = proj(l, p.A - 1); for (size_t ob = 0; ob < p.O; ++ob) flat(o, row[ob]);
+        return o; }});
+    v.push_back({"WitnessLP", true, [vlistOf](uint64_t ps, int mode) {
+        Rng r(ps ^ 9); size_t S = 2 + r.below(3);
+        A::WitnessLP lp(S);
+        auto use = [&](const A::POMDP::VList & l) {
+            Out o; lp.reset(); lp.allocate(l.size());
+            lp.addOptimalRow(l[0].values);
+            for (size_t i = 1; i < l.size(); ++i) {
+                auto w = lp.findWitness(l[i].values);
+                o.push_back(w ? 1.0 : 0.0); if (w) { flat(o, *w); lp.addOptimalRow(l[i].values); }
+            }
+            return o; };
+        if (mode == 1 || mode == 3) use(vlistOf(ps ^ 0xABCDEF, S, 0));
+        if (mode == 2) use(vlistOf(ps, S, 0));
+        if (mode == 4) { auto big = vlistOf(ps ^ 0xABCDEF, S, 0); for (auto & e : big) e.values *= 1073741824.0; use(big); }
+        return use(vlistOf(ps, S, 0)); }});
     // SARSOP is not a subject here: under ASan it does not finish within the per-case budget (and does not converge at all on
     // several small problems, see DESIGN §12); its anytime loop is exercised by C03 through the iteration-budget hook.
     return v;
 }
 
+
+// ---------------------------------------------------------------------------------------------------------------------
+// engine-carrying objects as steppers: make(ps) constructs ONE object (drawing its seed(s) from Seeder), step(k) is one
+// batch of calls on it.  Scenarios on top of the Subject ones: interleave (two objects, calls interleaved vs in sequence),
+// copy (a copy carries the engine state and leaves the original alone), root_seed (another root seed gives another stream).
+struct Obj { std::function<Out(int)> step; std::function<Obj()> clone; };
+// sharesEngine: the object holds a reference to ANOTHER engine-owning object (its model) and samples through it; a copy shares
+// that model, so copy and original are not independent by design — the copy scenarios are skipped for those
+template <class T, class F> static Obj wrapObj(std::shared_ptr<T> p, F f, std::shared_ptr<void> keep = nullptr, bool sharesEngine = false) {
+    Obj o; o.step = [p, f, keep](int k) { return f(*p, k); };
+    if constexpr (std::is_copy_constructible_v<T>) { if (!sharesEngine) o.clone = [p, f, keep]() { return wrapObj(std::make_shared<T>(*p), f, keep); }; }
+    return o;
+}
+// drawsSeeds: a call constructs an engine-owning helper (PBVI/PERSEUS build a BeliefGenerator per call), i.e. it advances the
+// Seeder: calls of two such objects do not commute (Gen/C16Rng.callsThatDrawSeeds pins the list); interleave is skipped
+struct Stepper { const char * name; bool seedSensitive; int nsteps; std::function<Obj(uint64_t)> make; bool drawsSeeds = false; };
+
+static A::POMDP::SparseModel<A::MDP::SparseModel> toSparseNoCheck(const PomdpTables & p) {
+    A::SparseMatrix3D T(p.A, A::SparseMatrix2D(p.S, p.S)), Ob(p.A, A::SparseMatrix2D(p.S, p.O)); A::SparseMatrix2D R(p.S, p.A);
+    for (size_t a = 0; a < p.A; ++a) { T[a] = p.T[a].sparseView(); Ob[a] = p.Ob[a].sparseView(); T[a].makeCompressed(); Ob[a].makeCompressed(); }
+    R = p.R.sparseView(); R.makeCompressed();
+    return A::POMDP::SparseModel<A::MDP::SparseModel>(A::NO_CHECK, p.O, std::move(Ob), A::NO_CHECK, p.S, p.A, std::move(T), std::move(R), p.discount);
+}
+// a POMDP whose observation does not depend on the state reached: uniform over 4 observations, so the observation stream is
+// a function of the POMDP layer's own engine only
+static PomdpTables uniformObs(uint64_t ps) { auto p = pomdpOf(ps); p.O = 4; p.Ob.assign(p.A, A::Matrix2D::Constant(p.S, 4, 0.25)); return p; }
+
+static std::vector<Stepper> steppers() {
+    std::vector<Stepper> v;
+    v.push_back({"MDP::Model::sampleSR", false, 3, [](uint64_t ps) {
+        auto t = mdpOf(ps); auto m = std::make_shared<A::MDP::Model>(toDense(t));
+        return wrapObj(m, [t](A::MDP::Model & mm, int k) { Out o; size_t s = k % t.S; for (int i = 0; i < 8; ++i) { auto [s1, r] = mm.sampleSR(s, (i + k) % t.A); o.push_back((double)s1); o.push_back(r); s = s1; } return o; }); }});
+    v.push_back({"MDP::SparseModel::sampleSR", false, 3, [](uint64_t ps) {
+        auto t = mdpOf(ps); auto m = std::make_shared<A::MDP::SparseModel>(toDense(t));
+        return wrapObj(m, [t](A::MDP::SparseModel & mm, int k) { Out o; size_t s = k % t.S; for (int i = 0; i < 8; ++i) { auto [s1, r] = mm.sampleSR(s, (i + k) % t.A); o.push_back((double)s1); o.push_back(r); s = s1; } return o; }); }});
+    v.push_back({"POMDP::Model(checked)::sampleSOR", false, 3, [](uint64_t ps) {
+        auto p = pomdpOf(ps); auto d = toSparseNoCheck(p);
+        auto m = std::make_shared<A::POMDP::Model<A::MDP::Model>>(d);   // converting constructor (from another model type): checks, draws two seeds
+        return wrapObj(m, [p](A::POMDP::Model<A::MDP::Model> & mm, int k) { Out o; size_t s = k % p.S; for (int i = 0; i < 8; ++i) { auto [s1, ob, r] = mm.sampleSOR(s, (i + k) % p.A); o.push_back((double)s1); o.push_back((double)ob); o.push_back(r); s = s1; } return o; }); }});
+    // observation streams of the NO_CHECK-constructed POMDP models (32 draws over 4 equiprobable observations per step)
+    v.push_back({"POMDP::Model(NO_CHECK)::observations", true, 3, [](uint64_t ps) {
+        auto p = uniformObs(ps); auto m = std::make_shared<A::POMDP::Model<A::MDP::Model>>(toDense(p));
+        return wrapObj(m, [p](A::POMDP::Model<A::MDP::Model> & mm, int k) { Out o; for (int i = 0; i < 32; ++i) { auto [ob, r] = mm.sampleOR(i % p.S, (i + k) % p.A, (i + 1) % p.S); o.push_back((double)ob); (void)r; } return o; }); }});
+    v.push_back({"POMDP::SparseModel(NO_CHECK)::observations", true, 3, [](uint64_t ps) {
+        auto p = uniformObs(ps); auto m = std::make_shared<A::POMDP::SparseModel<A::MDP::SparseModel>>(toSparseNoCheck(p));
+        return wrapObj(m, [p](A::POMDP::SparseModel<A::MDP::SparseModel> & mm, int k) { Out o; for (int i = 0; i < 32; ++i) { auto [ob, r] = mm.sampleOR(i % p.S, (i + k) % p.A, (i + 1) % p.S); o.push_back((double)ob); (void)r; } return o; }); }});
+    v.push_back({"POMDP::Model(checked)::observations", true, 3, [](uint64_t ps) {
+        auto p = uniformObs(ps); auto d = toSparseNoCheck(p); auto m = std::make_shared<A::POMDP::Model<A::MDP::Model>>(d);
+        return wrapObj(m, [p](A::POMDP::Model<A::MDP::Model> & mm, int k) { Out o; for (int i = 0; i < 32; ++i) { auto [ob, r] = mm.sampleOR(i % p.S, (i + k) % p.A, (i + 1) % p.S); o.push_back((double)ob); (void)r; } return o; }); }});
+    v.push_back({"DoubleQLearning", true, 3, [](uint64_t ps) {
+        auto t = mdpOf(ps); auto l = std::make_shared<A::MDP::DoubleQLearning>(t.S, t.A, t.discount, 0.5);
+        return wrapObj(l, [t, ps](A::MDP::DoubleQLearning & q, int k) { Rng r(ps ^ (uint64_t)(k + 1)); size_t s = 0;
+            for (int i = 0; i < 40; ++i) { size_t a = r.below(t.A), s1 = r.below(t.S); q.stepUpdateQ(s, a, s1, 1.0 + (double)r.below(8)); s = s1; }
+            Out o; flat(o, q.getQFunctionA()); flat(o, A::MDP::QFunction(q.getQFunctionB())); return o; }); }});
+    v.push_back({"DynaQ", false, 3, [](uint64_t ps) {
+        auto t = mdpOf(ps); auto m = std::make_shared<A::MDP::Model>(toDense(t));
+        auto l = std::make_shared<A::MDP::DynaQ<A::MDP::Model>>(*m, 0.5, 5);
+        return wrapObj(l, [t, ps](A::MDP::DynaQ<A::MDP::Model> & q, int k) { Rng r(ps ^ (uint64_t)(k + 1)); size_t s = 0;
+            for (int i = 0; i < 10; ++i) { size_t a = r.below(t.A), s1 = r.below(t.S); q.stepUpdateQ(s, a, s1, dyadicReward(r)); q.batchUpdateQ(); s = s1; }
+            Out o; flat(o, q.getQFunction()); return o; }, m, true); }});
+    // one engine per stepper: a stream that differs because ANOTHER policy in the same subject is seeded would hide an unseeded one
+    auto tieQ = [](uint64_t ps, size_t S) { Rng r(ps ^ 3); A::MDP::QFunction q(S, 4); for (size_t s = 0; s < S; ++s) for (size_t a = 0; a < 4; ++a) q(s, a) = (double)r.below(2); return q; };   // many exact ties: greedy draws
+    v.push_back({"MDP::QGreedyPolicy::sampleAction", true, 3, [tieQ](uint64_t ps) {
+        struct Pack { A::MDP::QFunction q; A::MDP::QGreedyPolicy g; Pack(A::MDP::QFunction qq) : q(std::move(qq)), g(q) {} Pack(const Pack &) = delete; };
+        auto t = mdpOf(ps); A::MDP::QFunction q = A::MDP::QFunction::Zero(t.S, 4);   // all tied: every draw is a uniform pick
+        auto pk = std::make_shared<Pack>(q);
+        return wrapObj(pk, [t](Pack & p, int k) { Out o; for (int i = 0; i < 32; ++i) o.push_back((double)p.g.sampleAction((i + k) % t.S)); return o; }); }});
+    v.push_back({"MDP::QSoftmaxPolicy::sampleAction", true, 3, [tieQ](uint64_t ps) {
+        struct Pack { A::MDP::QFunction q; A::MDP::QSoftmaxPolicy g; Pack(A::MDP::QFunction qq) : q(std::move(qq)), g(q, 1.0) {} Pack(const Pack &) = delete; };
+        auto t = mdpOf(ps); auto pk = std::make_shared<Pack>(tieQ(ps, t.S));
+        return wrapObj(pk, [t](Pack & p, int k) { Out o; for (int i = 0; i < 32; ++i) o.push_back((double)p.g.sampleAction((i + k) % t.S)); return o; }); }});
+    v.push_back({"MDP::EpsilonPolicy(QGreedy)::sampleAction", false, 3, [tieQ](uint64_t ps) {
+        struct Pack { A::MDP::QFunction q; A::MDP::QGreedyPolicy g; A::MDP::EpsilonPolicy e; Pack(A::MDP::QFunction qq) : q(std::move(qq)), g(q), e(g, 0.5) {} Pack(const Pack &) = delete; };
+        auto t = mdpOf(ps); auto pk = std::make_shared<Pack>(tieQ(ps, t.S));
+        return wrapObj(pk, [t](Pack & p, int k) { Out o; for (int i = 0; i < 32; ++i) o.push_back((double)p.e.sampleAction((i + k) % t.S)); return o; }); }});
+    v.push_back({"MDP::RandomPolicy::sampleAction", true, 3, [](uint64_t ps) {
+        auto t = mdpOf(ps); auto pk = std::make_shared<A::MDP::RandomPolicy>(t.S, 4);
+        return wrapObj(pk, [t](A::MDP::RandomPolicy & p, int k) { Out o; for (int i = 0; i < 32; ++i) o.push_back((double)p.sampleAction((i + k) % t.S)); return o; }); }});
+    v.push_back({"MDP::Policy(matrix)::sampleAction", true, 3, [](uint64_t ps) {
+        auto t = mdpOf(ps); auto pk = std::make_shared<A::MDP::Policy>(t.S, 4);    // uniform policy table
+        // MDP::Policy's hand-written copy constructor builds a NEW PolicyInterface base (draws a fresh seed): a copy is a newly created
+        // object, not a replica of the engine state — by design, so the copy scenarios (which expect a replica) are skipped
+        return wrapObj(pk, [t](A::MDP::Policy & p, int k) { Out o; for (int i = 0; i < 32; ++i) o.push_back((double)p.sampleAction((i + k) % t.S)); return o; }, nullptr, true); }});
+    v.push_back({"MCTS", false, 2, [](uint64_t ps) {
+        auto t = mdpOf(ps); auto m = std::make_shared<A::MDP::Model>(toDense(t));
+        auto s = std::make_shared<A::MDP::MCTS<A::MDP::Model>>(*m, 40, 2.0);
+        return wrapObj(s, [t](A::MDP::MCTS<A::MDP::Model> & x, int k) { Out o; o.push_back((double)x.sampleAction(k % t.S, 3)); o.push_back((double)x.sampleAction((k + 1) % t.S, 2)); return o; }, m, true); }});
+    v.push_back({"POMCP", false, 2, [](uint64_t ps) {
+        using M = A::POMDP::Model<A::MDP::Model>; auto p = pomdpOf(ps); auto m = std::make_shared<M>(toDense(p));
+        auto s = std::make_shared<A::POMDP::POMCP<M>>(*m, 20, 40, 2.0);
+        return wrapObj(s, [p, ps](A::POMDP::POMCP<M> & x, int k) { Rng rb(ps ^ (uint64_t)(5 + k)); auto b = dyadicBelief(rb, p.S); Out o; o.push_back((double)x.sampleAction(b, 3)); return o; }, m, true); }});
+    v.push_back({"rPOMCP", false, 2, [](uint64_t ps) {
+        using M = A::POMDP::Model<A::MDP::Model>; auto p = pomdpOf(ps); auto m = std::make_shared<M>(toDense(p));
+        auto s = std::make_shared<A::POMDP::rPOMCP<M, true>>(*m, 20, 40, 2.0, 10);
+        return wrapObj(s, [p, ps](A::POMDP::rPOMCP<M, true> & x, int k) { Rng rb(ps ^ (uint64_t)(5 + k)); auto b = dyadicBelief(rb, p.S); Out o; o.push_back((double)x.sampleAction(b, 3)); return o; }, m, true); }});
+    v.push_back({"PBVI(object)", false, 2, [](uint64_t ps) {
+        auto p = pomdpOf(ps); auto m = std::make_shared<A::POMDP::Model<A::MDP::Model>>(toDense(p));
+        auto s = std::make_shared<A::POMDP::PBVI>(6, 2, 0.0);
+        return wrapObj(s, [m](A::POMDP::PBVI & x, int) { auto [var, vf] = x(*m); Out o; o.push_back(var); flat(o, vf); return o; }, m); }, true});
+    v.push_back({"PERSEUS(object)", false, 2, [](uint64_t ps) {
+        auto p = pomdpOf(ps); auto m = std::make_shared<A::POMDP::Model<A::MDP::Model>>(toDense(p));
+        auto s = std::make_shared<A::POMDP::PERSEUS>(6, 2, 0.0); double lo = p.R.minCoeff();
+        return wrapObj(s, [m, lo](A::POMDP::PERSEUS & x, int) { auto [var, vf] = x(*m, lo); Out o; o.push_back(var); flat(o, vf); return o; }, m); }, true});
+    v.push_back({"BeliefGenerator", false, 2,   // not seed-sensitive: on some models only corner / reachable beliefs are produced
+         [](uint64_t ps) {
+        using M = A::POMDP::Model<A::MDP::Model>; auto p = pomdpOf(ps); if (p.S < 3) p = pomdpOf(ps, 1); auto m = std::make_shared<M>(toDense(p));
+        auto s = std::make_shared<A::POMDP::BeliefGenerator<M>>(*m); size_t S = p.S;
+        return wrapObj(s, [S](A::POMDP::BeliefGenerator<M> & x, int k) { auto bl = x(S + 6 + (size_t)k); Out o; o.push_back((double)bl.size()); for (auto & b : bl) flat(o, b); return o; }, m, true); }});
+    v.push_back({"MaximumLikelihoodModel::sampleSR", false, 3, [](uint64_t ps) {
+        auto t = mdpOf(ps); auto e = std::make_shared<A::MDP::Experience>(t.S, t.A);
+        { Rng r(ps ^ 77); for (int i = 0; i < 60; ++i) e->record(r.below(t.S), r.below(t.A), r.below(t.S), dyadicReward(r)); }
+        auto m = std::make_shared<A::MDP::MaximumLikelihoodModel<A::MDP::Experience>>(*e, 0.9, true);
+        return wrapObj(m, [t](A::MDP::MaximumLikelihoodModel<A::MDP::Experience> & mm, int k) { Out o; size_t s = k % t.S; for (int i = 0; i < 8; ++i) { auto [s1, r] = mm.sampleSR(s, (i + k) % t.A); o.push_back((double)s1); o.push_back(r); s = s1; } return o; }, e); }});
+    v.push_back({"ThompsonModel::sync", true, 2, [](uint64_t ps) {
+        auto t = mdpOf(ps); auto e = std::make_shared<A::MDP::Experience>(t.S, t.A);
+        { Rng r(ps ^ 77); for (int i = 0; i < 60; ++i) e->record(r.below(t.S), r.below(t.A), r.below(t.S), dyadicReward(r)); }
+        auto m = std::make_shared<A::MDP::ThompsonModel<A::MDP::Experience>>(*e, 0.9);
+        return wrapObj(m, [t](A::MDP::ThompsonModel<A::MDP::Experience> & mm, int) { mm.sync(); Out o; for (size_t a = 0; a < t.A; ++a) flat(o, A::Matrix2D(mm.getTransitionFunction(a))); flat(o, A::Matrix2D(mm.getRewardFunction())); return o; }, e); }});
+    v.push_back({"Bandit::Model<bernoulli>", true, 3, [](uint64_t) {
+        auto m = std::make_shared<A::Bandit::Model<std::bernoulli_distribution>>(std::make_tuple(0.5), std::make_tuple(0.25), std::make_tuple(0.75));
+        return wrapObj(m, [](A::Bandit::Model<std::bernoulli_distribution> & mm, int k) { Out o; for (int i = 0; i < 48; ++i) o.push_back(mm.sampleR((i + k) % 3)); return o; }); }});
+    v.push_back({"MiningBandit", true, 3, [](uint64_t) {
+        auto m = std::make_shared<A::Factored::Bandit::MiningBandit>(A::Factored::Action{2, 2, 4}, std::vector<unsigned>{2, 3, 2}, std::vector<double>{0.5, 0.4, 0.6, 0.3, 0.5, 0.45});
+        return wrapObj(m, [](A::Factored::Bandit::MiningBandit & mm, int k) { Out o; for (int i = 0; i < 12; ++i) { A::Factored::Action a{(size_t)((i + k) % 2), (size_t)(i % 2), (size_t)(i % 4)}; flat(o, mm.sampleR(a)); } return o; }); }});
+    auto mkRules = [](uint64_t seed) {
+        namespace FB = A::Factored::Bandit;
+        Rng r(seed); size_t n = 3 + r.below(3); A::Factored::Action space(n);
+        for (auto & d : space) d = 2 + r.below(2);
+        std::vector<FB::QFunctionRule> rules;
+        for (size_t i = 0; i + 1 < n; ++i) for (size_t x = 0; x < space[i]; ++x) for (size_t y = 0; y < space[i + 1]; ++y)
+            rules.push_back({A::Factored::PartialAction{{i, i + 1}, {x, y}}, (double)r.below(3)});   // ties: the random start decides
+        return std::make_pair(space, rules);
+    };
+    v.push_back({"LocalSearch(object)", false, 3, [mkRules](uint64_t ps) {
+        namespace FB = A::Factored::Bandit; auto ls = std::make_shared<FB::LocalSearch>();
+        auto [sp, rules] = mkRules(ps); auto g = std::make_shared<FB::LocalSearch::Graph>(FB::MakeGraph<FB::LocalSearch>()(rules, sp)); FB::UpdateGraph<FB::LocalSearch>()(*g, rules, sp);
+        return wrapObj(ls, [sp = sp, g](FB::LocalSearch & x, int) { auto [act, val] = x(sp, *g); Out o; o.push_back(val); for (auto a : act) o.push_back((double)a); return o; }, g); }});
+    v.push_back({"ReusingIterativeLocalSearch(object)", false, 3, [mkRules](uint64_t ps) {
+        namespace FB = A::Factored::Bandit; auto ls = std::make_shared<FB::ReusingIterativeLocalSearch>(0.3, 0.1, 6, true);
+        auto [sp, rules] = mkRules(ps); auto g = std::make_shared<FB::ReusingIterativeLocalSearch::Graph>(FB::MakeGraph<FB::ReusingIterativeLocalSearch>()(rules, sp)); FB::UpdateGraph<FB::ReusingIterativeLocalSearch>()(*g, rules, sp);
+        return wrapObj(ls, [sp = sp, g](FB::ReusingIterativeLocalSearch & x, int) { auto [act, val] = x(sp, *g); Out o; o.push_back(val); for (auto a : act) o.push_back((double)a); return o; }, g); }});
+    return v;
+}
+static std::vector<Stepper> g_step;
+static Out runSteps(Obj & o, int n) { Out all; for (int k = 0; k < n; ++k) { Out x = o.step(k); all.push_back((double)x.size()); all.insert(all.end(), x.begin(), x.end()); } return all; }
+
 static std::vector<Subject> g_subj;
+static std::vector<int> g_stepOf;   // subject index -> stepper index or -1
+
 static bool g_alone = false;
 static std::string g_self, g_seed, g_tier;
 
 long verif::verif_ncases(const std::string & tier) {
-    g_subj = subjects();
-    return (long)g_subj.size() * (tier == "thorough" ? 40 : 4);
+    g_subj = subjects(); g_step = steppers();
+    g_stepOf.assign(g_subj.size(), -1);
+    for (size_t i = 0; i < g_step.size(); ++i) {
+        const Stepper * sp = &g_step[i];
+        g_subj.push_back({sp->name, false, [sp](uint64_t ps, int) { Obj o = sp->make(ps); return runSteps(o, sp->nsteps); }});
+        g_stepOf.push_back((int)i);
+    }
+    return (long)g_subj.size() * (tier == "thorough" ? 60 : 8);
 }
 
-static void emit(const char * name, const char * scen, const Out & a, const Out & b) {
-    Line l; l << "C16" << "same" << name << scen << "|"; l.nums(a); l.nums(b); l.emit();
+static void emit(const char * name, const char * scen, const Out & a, const Out & b, const char * op = "same") {
+    Line l; l << "C16" << op << name << scen << "|"; l.nums(a); l.nums(b); l.emit();
+    std::printf("#stat scenario:%s 1\n#stat outlen:%s 1\n", scen, a.size() <= 1 ? "le1" : a.size() < 16 ? "lt16" : a.size() < 128 ? "lt128" : "ge128");
 }
+static void cat(Out & a, const Out & b) { a.push_back((double)b.size()); a.insert(a.end(), b.begin(), b.end()); }
 
 void verif::verif_case(Rng & rng, long idx, const std::string &) {
     const Subject & sj = g_subj[idx % g_subj.size()];
@@ -295,6 +530,50 @@ void verif::verif_case(Rng & rng, long idx, const std::string &) {
         emit(sj.name, "reuse", a, d);
         A::Seeder::setRootSeed(root); Out d2 = sj.run(ps, 2);
         emit(sj.name, "reuse_same_problem", a, d2);
+        A::Seeder::setRootSeed(root); Out d3 = sj.run(ps, 3);
+        emit(sj.name, "reuse_same_size_other_problem", a, d3);
+        if (!std::strncmp(sj.name, "Pruner", 6) || !std::strncmp(sj.name, "WitnessLP", 9)) {
+            // the LP wrapper keeps a row scale chosen from the first row it sees (magnitudes above 2^16): reset() must forget it
+            A::Seeder::setRootSeed(root); Out d4 = sj.run(ps, 4);
+            emit(sj.name, "reuse_after_other_magnitude", a, d4);
+        }
+    }
+    if (g_stepOf[idx % g_subj.size()] >= 0) {
+        const Stepper & st = g_step[g_stepOf[idx % g_subj.size()]];
+        const uint64_t ps2 = ps ^ 0x2222;
+        // interleave: two objects of the class, constructed in the same order; calls in sequence vs interleaved
+        Out seq, itl;
+        if (!st.drawsSeeds) {
+        { A::Seeder::setRootSeed(root); Obj x = st.make(ps), y = st.make(ps2); Out ox, oy;
+          for (int k = 0; k < st.nsteps; ++k) cat(ox, x.step(k));
+          for (int k = 0; k < st.nsteps; ++k) cat(oy, y.step(k));
+          seq = ox; seq.insert(seq.end(), oy.begin(), oy.end()); }
+        { A::Seeder::setRootSeed(root); Obj x = st.make(ps), y = st.make(ps2); Out ox, oy;
+          for (int k = 0; k < st.nsteps; ++k) { cat(ox, x.step(k)); cat(oy, y.step(k)); }
+          itl = ox; itl.insert(itl.end(), oy.begin(), oy.end()); }
+        emit(sj.name, "interleave", seq, itl);
+        // an unrelated object constructed BEFORE the reseed and used in between must not matter either
+        { Obj z = st.make(ps2); A::Seeder::setRootSeed(root); Obj x = st.make(ps); Out ox;
+          for (int k = 0; k < st.nsteps; ++k) { ox.push_back((double)0); Out t = x.step(k); ox.back() = (double)t.size(); ox.insert(ox.end(), t.begin(), t.end()); z.step(k); }
+          emit(sj.name, "older_object_in_between", a, ox); }
+        }
+        // copy: the copy continues exactly like the original (engine state is copied), and copying does not disturb the original
+        { A::Seeder::setRootSeed(root); Obj x = st.make(ps);
+          if (x.clone) {
+              Out ox, oc; cat(ox, x.step(0)); Obj c = x.clone(); oc = ox;
+              for (int k = 1; k < st.nsteps; ++k) { cat(ox, x.step(k)); cat(oc, c.step(k)); }
+              emit(sj.name, "copy_replays", ox, oc);
+              emit(sj.name, "copy_leaves_original", a, ox);
+              std::printf("#stat copyable:%s 1\n", sj.name);
+          } }
+        // another root seed: a stream long enough not to coincide by chance must differ
+        if (st.seedSensitive) {
+            A::Seeder::setRootSeed(root ^ 0x9E3779B9u); Out r2 = sj.run(ps, 0);
+            emit(sj.name, "root_seed", a, r2, "differ");
+            // two objects created one after the other must not share a stream either
+            A::Seeder::setRootSeed(root); Obj x = st.make(ps), y = st.make(ps); Out ox = runSteps(x, st.nsteps), oy = runSteps(y, st.nsteps);
+            emit(sj.name, "sibling_objects", ox, oy, "differ");
+        }
     }
     // fresh process: the same call, alone, in a new process (nothing ran before it) vs here after everything above
     {
@@ -315,6 +594,7 @@ void verif::verif_case(Rng & rng, long idx, const std::string &) {
 }
 
 int main(int argc, char ** argv) {
+    setvbuf(stdout, nullptr, _IOLBF, 0);
     g_self = argv[0]; g_seed = argc > 1 ? argv[1] : "0"; g_tier = argc > 2 ? argv[2] : "quick";
     for (int i = 1; i < argc; ++i) if (!std::strcmp(argv[i], "--alone")) g_alone = true;
     return verif::verif_main(argc, argv);
